@@ -526,3 +526,92 @@ pub fn random_cli_scenario(rng: &mut StdRng, i: usize, thorough: bool) -> CliSce
     }
     CliScenario { flags, minrep, minsub, channel, args: if channel == "args" { tcs } else { vec![] }, content: bytes, readable }
 }
+
+
+// ------------------------------------------------------------------------------------------
+// Python binding (C14): histories are planned here, executed by drivers/py_driver.py in CPython
+// on the extension module built from /repo, and merged with the library's own results.
+// ------------------------------------------------------------------------------------------
+pub fn py_plan(rng: &mut StdRng, h: usize) -> Value {
+    use crate::gen::ASTRAL;
+    let mut letters: Vec<&str> = vec!["a", "b"];
+    for _ in 0..3 {
+        letters.push(ASTRAL[rng.gen_range(0..ASTRAL.len())]);
+    }
+    if rng.gen_bool(0.3) {
+        letters.push([" ", "\u{a0}", "#", "\t", "(", "\\", "1", "\u{130}"][rng.gen_range(0..8)]);
+    }
+    let list = shaped_set(rng, &letters, 3, 4);
+    let mut ops = vec![];
+    let empty = rng.gen_bool(0.03);
+    ops.push(json!({"op": "new", "o": 1, "list": if empty { vec![] } else { list.clone() },
+                    "ctor": if rng.gen_bool(0.5) { "classmethod" } else { "init" }}));
+    if !empty {
+        let names = ["digit", "nondigit", "space", "nonspace", "word", "nonword", "rep", "icase", "capture", "verbose",
+                     "nostart", "noend", "noanchors", "escape", "escape", "escape", "minrep", "minsub"];
+        for _ in 0..rng.gen_range(0..6) {
+            let name = names[rng.gen_range(0..names.len())];
+            let arg: i64 = match name {
+                "escape" => rng.gen_range(0..=1),
+                "minrep" | "minsub" => [1, 2, 3, 0, -1][rng.gen_range(0..5)],
+                _ => 0,
+            };
+            ops.push(json!({"op": "set", "o": 1, "name": name, "arg": arg, "ret": 1}));
+            if rng.gen_bool(0.3) {
+                ops.push(json!({"op": "build", "o": 1}));
+            }
+        }
+        ops.push(json!({"op": "build", "o": 1}));
+    }
+    json!({"h": h, "list": list, "ops": ops})
+}
+
+pub fn py_merge(plan: &Value, res: &Value) -> (Value, Value) {
+    let h = plan["h"].as_u64().unwrap() as usize;
+    let list: Vec<String> = plan["list"].as_array().unwrap().iter().map(|s| s.as_str().unwrap().to_string()).collect();
+    let mut cfg = Cfg::default();
+    let mut intern = Interner::new();
+    let mut evops = vec![];
+    let mut created = false;
+    for (op, r) in plan["ops"].as_array().unwrap().iter().zip(res["res"].as_array().unwrap().iter()) {
+        let ok = r["ok"].as_bool().unwrap_or(false);
+        let msg = crate::emit::ascii_only(r["msg"].as_str().unwrap_or(""));
+        match op["op"].as_str().unwrap() {
+            "new" => {
+                let n = op["list"].as_array().map(|a| a.len()).unwrap_or(0);
+                created = ok;
+                evops.push(json!({"op": "new", "o": 1, "set": 1, "n": n, "ok": ok, "msg": msg}));
+            }
+            "set" => {
+                if !created {
+                    continue;
+                }
+                let name = op["name"].as_str().unwrap();
+                let arg = op["arg"].as_i64().unwrap_or(0);
+                if ok {
+                    believe(&mut cfg, name, arg);
+                }
+                let alias = r["alias"].as_bool().unwrap_or(true);
+                evops.push(json!({"op": "set", "o": 1, "name": name, "arg": arg, "ret": if alias { 1 } else { 2 },
+                                  "ok": ok, "msg": msg}));
+            }
+            _ => {
+                if !created {
+                    continue;
+                }
+                let out = r["out"].as_str().unwrap_or("");
+                let lib = lib_out(&list, &cfg).unwrap_or_else(|e| format!("PANIC {}", e));
+                evops.push(json!({"op": "build", "o": 1, "ok": ok, "msg": msg, "cfg": cfg.to_json(),
+                                  "sid": intern.id(out), "libsid": intern.id(&lib),
+                                  "outcps": cps(out), "libcps": cps(&lib),
+                                  "compiles": r["compiles"].as_bool().unwrap_or(false),
+                                  "fullmatch": r["fullmatch"].as_bool().unwrap_or(false),
+                                  "failed": r["failed"].as_array().map(|a| a.iter().map(|t| cps(t.as_str().unwrap_or(""))).collect::<Vec<_>>()).unwrap_or_default()}));
+            }
+        }
+    }
+    (
+        json!({"ev": "hist", "front": "py", "h": h, "ops": evops}),
+        json!({"h": h, "kind": "hist-py", "plan": plan, "results": res}),
+    )
+}
